@@ -6,11 +6,13 @@ import (
 	"io"
 	"math"
 	"math/bits"
+	"path/filepath"
 	"reflect"
 	"sort"
 	"time"
 	"unsafe"
 
+	"github.com/dgraph-io/badger/v3"
 	"github.com/klauspost/compress/s2"
 	"github.com/pckhoi/meow"
 	"github.com/wrgl/wrgl/pkg/encoding"
@@ -18,6 +20,7 @@ import (
 	"github.com/wrgl/wrgl/pkg/encoding/pktline"
 	"github.com/wrgl/wrgl/pkg/misc"
 	"github.com/wrgl/wrgl/pkg/objects"
+	objbadger "github.com/wrgl/wrgl/pkg/objects/badger"
 	objmock "github.com/wrgl/wrgl/pkg/objects/mock"
 
 	"verifharness/xt"
@@ -51,6 +54,11 @@ import (
 // store: (((prefix ident value)...) (get...)): entries sorted by prefix++ident, ident = the content whose
 //   meow hash is the key suffix, value decompressed for blocks / block indices; get = (0 object) | (1).
 // decode-only: (st) | (0 value rest R).
+//
+// Store cases run three times with the callers' buffer-reuse idiom (one scratch buffer for the compressed
+// output, one for the content handed in, both overwritten after every Save): over objmock (the observation
+// returned), over a store that retains the slices it is given, and over objbadger.NewTxn on a temp badger
+// dir read back after Commit; the three observations must be equal (classes store-aliasing-*, *-retain, *-badger).
 //
 // Oracle (independent of the model): a value with a cell / text field > 65535 bytes must be refused
 // and nothing returned; every other well-formed value must encode, decode back to an equal value
@@ -87,10 +95,16 @@ type c06Decoded struct {
 	reenc func() ([]byte, error) // re-encode the decoded value
 }
 
-type c06Verd struct{ v Verdict }
+type c06Verd struct {
+	v      Verdict
+	suffix string // appended to the class (store variants)
+}
 
 func (s *c06Verd) bad(class, format string, a ...interface{}) {
 	if s.v.OK {
+		if s.suffix != "" {
+			class += "-" + s.suffix
+		}
 		s.v = Fail(class, format, a...)
 	}
 }
@@ -719,7 +733,7 @@ func runC06(ctx *Ctx, c *xt.T) (*xt.T, Verdict) {
 	case 11:
 		return c06RunHeaders(c)
 	case 12:
-		return c06RunStore(c)
+		return c06RunStore(ctx, c)
 	case 13:
 		return c06RunDecode(c)
 	}
@@ -803,9 +817,23 @@ func c06Sum(b []byte) []byte {
 	return a[:]
 }
 
-func c06RunStore(c *xt.T) (*xt.T, Verdict) {
-	vd := &c06Verd{v: OK()}
-	s := objmock.NewStore()
+// c06StoreRun performs the Save* ops of a store case on w using the callers' buffer-reuse idiom
+// (one scratch buffer for the compressed output, one for the content handed in, both overwritten
+// after every call), then reads everything back from the store returned by finish.
+func c06StoreRun(c *xt.T, name string, w objects.Store, finish func() objects.Store) (*xt.T, Verdict) {
+	vd := &c06Verd{v: OK(), suffix: name}
+	var bb, cb, vb []byte // scratch: compressed output, content, second value
+	scratch := func(buf *[]byte, b []byte) []byte {
+		*buf = append((*buf)[:0], b...)
+		return *buf
+	}
+	scribble := func() {
+		for _, b := range [][]byte{bb[:cap(bb)], cb[:cap(cb)], vb[:cap(vb)]} {
+			for i := range b {
+				b[i] = 0xEE
+			}
+		}
+	}
 	byHash := map[string][]byte{}
 	remember := func(b []byte) []byte {
 		h := c06Sum(b)
@@ -827,19 +855,19 @@ func c06RunStore(c *xt.T) (*xt.T, Verdict) {
 		var err error
 		switch kind {
 		case 1:
-			sum, _, err = objects.SaveBlock(s, nil, content)
+			sum, bb, err = objects.SaveBlock(w, bb, scratch(&cb, content))
 		case 2:
-			sum, _, err = objects.SaveBlockIndex(s, nil, content)
+			sum, bb, err = objects.SaveBlockIndex(w, bb, scratch(&cb, content))
 		case 3:
-			sum, err = objects.SaveTable(s, content)
+			sum, err = objects.SaveTable(w, scratch(&cb, content))
 		case 4:
-			sum, err = objects.SaveCommit(s, content)
+			sum, err = objects.SaveCommit(w, scratch(&cb, content))
 		case 5:
 			sum = want // the owning table's sum
-			err = objects.SaveTableIndex(s, sum, o.Kids[2].AsBytes())
+			err = objects.SaveTableIndex(w, scratch(&cb, sum), scratch(&vb, o.Kids[2].AsBytes()))
 		default:
 			sum = want
-			err = objects.SaveTableProfile(s, sum, o.Kids[2].AsBytes())
+			err = objects.SaveTableProfile(w, scratch(&cb, sum), scratch(&vb, o.Kids[2].AsBytes()))
 		}
 		if err != nil {
 			panic(err)
@@ -847,10 +875,12 @@ func c06RunStore(c *xt.T) (*xt.T, Verdict) {
 		if !bytes.Equal(sum, want) {
 			vd.bad("key-not-hash", "Save kind %d returned %x, meow hash of the content is %x", kind, sum, want)
 		}
-		ops = append(ops, opT{kind, sum})
+		ops = append(ops, opT{kind, append([]byte{}, sum...)})
+		scribble() // what the next call of the caller does to its buffers
 		distinct[prefixOf[kind]+string(want)] = true
 	}
 	// raw store contents
+	s := finish()
 	keys, err := s.FilterKey(nil)
 	if err != nil {
 		panic(err)
@@ -962,6 +992,112 @@ func c06RunStore(c *xt.T) (*xt.T, Verdict) {
 		}
 	}
 	return xt.N(et, gt), vd.v
+}
+
+// c06Retain is a store that keeps the very slices it is given (like a badger transaction until
+// commit); reads see whatever those slices hold now.
+type c06Retain struct{ m map[string][]byte }
+
+func (r *c06Retain) Get(k []byte) ([]byte, error) {
+	if v, ok := r.m[string(k)]; ok {
+		return v, nil
+	}
+	return nil, objects.ErrKeyNotFound
+}
+func (r *c06Retain) Set(k, v []byte) error { r.m[string(k)] = v; return nil }
+func (r *c06Retain) Delete(k []byte) error { delete(r.m, string(k)); return nil }
+func (r *c06Retain) Exist(k []byte) bool   { _, ok := r.m[string(k)]; return ok }
+func (r *c06Retain) Filter(prefix []byte) (map[string][]byte, error) {
+	m := map[string][]byte{}
+	for k, v := range r.m {
+		if bytes.HasPrefix([]byte(k), prefix) {
+			m[k] = v
+		}
+	}
+	return m, nil
+}
+func (r *c06Retain) FilterKey(prefix []byte) ([][]byte, error) {
+	var keys [][]byte
+	for k := range r.m {
+		if bytes.HasPrefix([]byte(k), prefix) {
+			keys = append(keys, []byte(k))
+		}
+	}
+	return keys, nil
+}
+func (r *c06Retain) Clear(prefix []byte) error { return fmt.Errorf("not implemented") }
+func (r *c06Retain) Close() error              { return nil }
+
+var c06DB *badger.DB
+
+func c06Badger(ctx *Ctx) *badger.DB {
+	if c06DB == nil {
+		db, err := badger.Open(badger.DefaultOptions(filepath.Join(ctx.Tmp, "c06badger")).WithLoggingLevel(badger.ERROR))
+		if err != nil {
+			panic(err)
+		}
+		c06DB = db
+	}
+	// empty it: delete whatever the previous case left (much cheaper than DropAll)
+	err := c06DB.Update(func(t *badger.Txn) error {
+		it := t.NewIterator(badger.IteratorOptions{})
+		var keys [][]byte
+		for it.Rewind(); it.Valid(); it.Next() {
+			keys = append(keys, it.Item().KeyCopy(nil))
+		}
+		it.Close()
+		for _, k := range keys {
+			if err := t.Delete(k); err != nil {
+				return err
+			}
+		}
+		return nil
+	})
+	if err != nil {
+		panic(err)
+	}
+	return c06DB
+}
+
+// c06RunStore runs a store case over objmock (the observation compared with the model), over a
+// retaining store and over the repository's own badger transaction (objbadger.NewTxn, read back
+// through objbadger.NewStore after Commit); all three must give the same observation.
+func c06RunStore(ctx *Ctx, c *xt.T) (*xt.T, Verdict) {
+	mock := objmock.NewStore()
+	obs, v := c06StoreRun(c, "", mock, func() objects.Store { return mock })
+	ret := &c06Retain{m: map[string][]byte{}}
+	db := c06Badger(ctx)
+	txn := objbadger.NewTxn(db)
+	variants := []struct {
+		name   string
+		w      objects.Store
+		finish func() objects.Store
+	}{
+		{"retain", ret, func() objects.Store {
+			// commit: materialise what the retained slices hold now
+			m := objmock.NewStore()
+			for k, val := range ret.m {
+				m.Set([]byte(k), val)
+			}
+			return m
+		}},
+		{"badger", txn, func() objects.Store {
+			if err := txn.Commit(); err != nil {
+				panic(err)
+			}
+			return objbadger.NewStore(db)
+		}},
+	}
+	for _, vr := range variants {
+		obs2, v2 := c06StoreRun(c, vr.name, vr.w, vr.finish)
+		if v.OK && !v2.OK {
+			v = v2
+		}
+		if v.OK && obs2.String() != obs.String() {
+			v = Fail("store-aliasing-"+vr.name, "Save*/Get* over the %s store differ from objmock: a stored value changed when the caller reused its buffer", vr.name)
+		}
+	}
+	return obs, v
 }
 
 // ---- decode-only
